@@ -2,6 +2,8 @@
 
 package eviction
 
+import "fmt"
+
 // VerifKeys returns the keys currently tracked by the LRU cache, in heap-slice order.
 // A nil entry (left behind by Flush) is reported as "<nil>".
 func (cache *CacheLRU) VerifKeys() []string {
@@ -26,6 +28,28 @@ func (cache *CacheLFU) VerifKeys() []string {
 			continue
 		}
 		res = append(res, e.key)
+	}
+	return res
+}
+
+// VerifMeta returns "key time" for every entry of the LRU cache.
+func (cache *CacheLRU) VerifMeta() []string {
+	res := make([]string, 0, len(cache.entries))
+	for _, e := range cache.entries {
+		if e != nil {
+			res = append(res, fmt.Sprintf("%s %d 0", e.key, e.unixTime))
+		}
+	}
+	return res
+}
+
+// VerifMeta returns "key count addedTime" for every entry of the LFU cache.
+func (cache *CacheLFU) VerifMeta() []string {
+	res := make([]string, 0, len(cache.entries))
+	for _, e := range cache.entries {
+		if e != nil {
+			res = append(res, fmt.Sprintf("%s %d %d", e.key, e.count, e.addedTime))
+		}
 	}
 	return res
 }
